@@ -160,7 +160,7 @@ func main() {
 			}
 			if len(rv.ShapeT) == 0 {
 				renderObls = append(renderObls, &Obligation{Func: "rendered." + rv.Name, Name: "rendered." + rv.Name + "/shape:translate-cases", Kind: "shape", Goal: "true", Status: "proved", Solver: "extraction",
-					Src: fmt.Sprintf("translate and TraceTranslate are `var conv = zero; switch c { case <int>: conv = <literal> ... }; return conv` with no default clause (%d token codes): a code that is not a case label maps to symbol 0", rv.NTrans)})
+					Src: fmt.Sprintf("translate and TraceTranslate are `var conv = zero; switch c { case <int>: conv = <literal> ... }; return conv` with no default clause (%d token codes): a code that is not a case label maps to symbol 0; TraceReduce (Go renderings) is `if IsTrace { switch reduceIndex { case <int>: fmt.Printf(<literal>, look, s) ... } }`", rv.NTrans)})
 			}
 			if rv != rep && rep != nil {
 				same := true
